@@ -69,7 +69,11 @@ def battery():
     Z = np.zeros((3, 3))
     calls += [('relative_error fixed station', lambda: gs.relative_error(-33.0, 151.0, Z, V * 2, Z)), ('vcv_cart2local null', lambda: gs.vcv_cart2local(Z, -33.0, 151.0).tolist()),
               ('relative_error fixed station again', lambda: gs.relative_error(-33.0, 151.0, Z, V * 2, Z))]
-    mut = {'V': V, 'col': col, 'va': va, 'Z': Z}
+    # a station-to-station covariance block of a joint adjustment is not symmetric
+    C12 = np.array([[1.0e-5, 2.0e-6, -1.0e-6], [3.0e-6, 2.0e-5, 4.0e-6], [5.0e-7, -2.0e-6, 1.5e-5]])
+    calls += [('relative_error asymmetric block', lambda: gs.relative_error(-33.0, 151.0, V, V * 2, C12)),
+              ('relative_error asymmetric block again', lambda: gs.relative_error(-33.0, 151.0, V, V * 2, C12))]
+    mut = {'V': V, 'col': col, 'va': va, 'Z': Z, 'C12': C12}
     return calls, mut
 
 
